@@ -4,6 +4,7 @@
 #include "hexasm.hpp"
 #include "xcmp.hpp"
 #include "gen/xgen.hpp"
+#include "gen/imggen.hpp"
 #include <dirent.h>
 
 using sim::Json;
@@ -80,8 +81,12 @@ int main(int argc, char **argv) {
   for (int k = 0; k < genCount; k++) {
     sim::Rng r(sim::mix64(seed, 0x9e17, (uint64_t)k));
     bool isX = k % 3 != 2;
-    std::string name = std::string(isX ? "xg" : "ag") + std::to_string(k);
-    std::string src = isX ? gen::makeX(r) : gen::makeAsm(r);
+    bool rawImage = !isX && (k % 9 == 8);        // every third assembly program is a raw imggen image as DATA words
+    std::string name = std::string(isX ? "xg" : rawImage ? "ai" : "ag") + std::to_string(k);
+    std::string src;
+    if (isX) src = gen::makeX(r);
+    else if (rawImage) { gen::ImgCfg ic; ic.maxWords = 64; ic.undefPerMille = 0; src = gen::imageAsAsm(gen::makeImage(r, ic)); }
+    else src = gen::makeAsm(r);
     Json in = Json::array();
     int ni = 1 + (int)r.below(3);
     for (int q = 0; q < ni; q++) { std::string b; size_t n = (size_t)r.below(8); for (size_t z = 0; z < n; z++) b.push_back((char)(r.chance(1, 3) ? r.below(256) : 1 + r.below(20))); in.push(sim::toHex(b)); }
